@@ -8,5 +8,5 @@ Require Import MV.Policy.PolicySyntax MV.Policy.Policy MV.Policy.Spec MV.Generat
 
 Theorem allowlisted_spec : forall w : allow_sit,
   first_match (allow_atoms w) allowlisted_gen = Some (doc_allowlisted w).
-Proof. exact PolicyProofs.allowlisted_spec. Qed.
+Proof. apply allowlisted_sound. vm_compute; reflexivity. Qed.
 Print Assumptions allowlisted_spec.
